@@ -61,5 +61,10 @@ extern bool ghost_ticks_ascending;
 /* replay witness mirrors (vlib/replay.py) */
 extern double g_w0, g_w1, g_w2, g_w3, g_wp; extern size_t g_wn; extern int g_wm;
 
+/* vacuity canary: NIX_CANARY(f) expands to an ensures(false) clause only in the job that enforces f
+   (the driver passes -DNIX_CANARY_f=...); the clause must FAIL, otherwise the requires are contradictory. */
+#define NIX_CANARY(f) NIX_CANARY_##f
+#include "canary_defaults.h"
+
 #define NIX_THROWS /* marker read by vlib/unit.py: the callee may set nix_exc */
 #endif
